@@ -138,6 +138,7 @@ func main() {
 	genManagerDo()
 	genLastMod()
 	genDispatch()
+	genReadOnly()
 	genBounds()
 	genMsgBounds()
 	if forProp == "" || forProp == "C15" {
